@@ -88,6 +88,24 @@ def owners_of(meta, mt):
     return out
 
 
+# Group-count fields whose generated C++ class is not int-like: MessageBase::has_group_count reads
+# the object through static_cast<Field<int,0>*> and takes any text, "0" included, for a positive
+# count (FIX44.xml types NoLegSecurityAltID(604) as STRING).  The shared codec model does not
+# describe that; such messages are kept out of these suites (reported to the codec model's owner).
+COUNT_CLASS_TRAPS = {"fix44": {604}}
+
+
+def count_trap(meta, fs):
+    """True if a field list (recursively) holds a trapped count field announcing zero elements."""
+    traps = COUNT_CLASS_TRAPS.get(meta.name, ())
+    for f in fs:
+        if f.fnum in traps and not f.elems:
+            return True
+        if f.elems and any(count_trap(meta, e) for e in f.elems):
+            return True
+    return False
+
+
 def run_multi(built, cases, expand, join, per_case_timeout=20):
     """run_impl for suites whose cases consist of several harness operations.
     expand(rest) -> list of h_codec lines; join(rest, results) -> result string.
